@@ -69,7 +69,7 @@ def run_plan(ctx, props, plan, quick, extra_random=None):
         log(f"[tlc] design {c['name']}: {r}")
         c["design"] = r
         if r.ok:
-            must = [a for a in ("CL0Lock", "CL1u") if a in r.coverage]
+            must = [a for a in ("CDrop1", "CExit") if a in r.coverage]
             ctx.require_coverage(r, must, c["name"])
         else:
             steps = mtcommon.cex_steps(r, c["silent"])
@@ -106,7 +106,9 @@ def run_plan(ctx, props, plan, quick, extra_random=None):
     probes = []
     for (flag, val, what) in REGRESSIONS:
         cands = [c for c in plan if flag in c["consts"] and c["consts"].get(flag) != val]
-        cands = cands if not quick else cands[:: max(1, len(cands) // 5)]
+        if quick:   # small models only, a handful per flag
+            cands = [c for c in cands if c.get("design") is not None and c["design"].distinct < 60000]
+            cands = cands[:: max(1, len(cands) // 5)]
         for c in cands:
             consts = dict(c["consts"])
             consts[flag] = val
